@@ -23,7 +23,7 @@ META = dict(
 def tasks(tier):
     n = 2 if tier == "quick" else 3
     o = dict(nra=True, timeout_ms=60000)
-    t = [dict(module="linsol", fn="h_lu", shape=dict(n=n, fmt=f), opts=o) for f in ("csc", "coo")]
+    t = [dict(module="linsol", fn="h_lu", shape=dict(n=n, fmt=f), opts=o) for f in ("csc", "coo", "csr")]
     for kind in ("GMRES", "MINRES"):
         for trans in (False, True):
             for guess in (False, True):
